@@ -47,6 +47,41 @@ CONTRACTS = {
             ('attained', 'any(result == self.M[r][cms_h(x, self.hash_seeds[r], self.width)] for r in range(self.depth))'),
         ],
     ),
+    # ---- the public update operations, against the class invariant over a ghost history (weight of every item, total weight)
+    'CountMinSketch.add': dict(
+        params={'self': SKETCH, 'x': 'Item', 'delta': 'int', 'weight': 'counter[Item]', 'total': 'int'},
+        modifies=['param:self.M'],
+        requires=[(l, e.replace('sketch.', 'self.')) for l, e in WF + INV] + [('delta', 'delta >= 0'), ('no_overflow', 'total + delta < 2**31')],
+        lemmas=[],
+        lemma_map={'rowsum': ['sum_pointupdate'], 'no_overflow': ['sum_ge_elem']},
+        ensures=[
+            ('nonneg', 'all(self.M[r][c] >= 0 for r in range(self.depth) for c in range(self.width))'),
+            ('rowsum', 'all(sumI(self.M[r], self.width) == total + delta for r in range(self.depth))'),
+            ('lower', 'forall(lambda y: all(self.M[r][cms_h(y, self.hash_seeds[r], self.width)] >= '
+                      'weight[y] + ite(y == x, delta, 0) for r in range(self.depth)), "Item")'),
+            ('shape', 'rows(self.M) == self.depth and cols(self.M) == self.width'),
+        ],
+    ),
+    'CountMinSketch.batch_add': dict(
+        params={'self': SKETCH, 'lst': 'list[Item]', 'delta': 'int', 'weight': 'counter[Item]', 'total': 'int'},
+        modifies=['param:self.M'],
+        requires=[(l, e.replace('sketch.', 'self.')) for l, e in WF + INV] + [('delta', 'delta >= 0'), ('no_overflow', 'total + wtot(delta, len(lst)) < 2**31')],
+        lemmas=['wtot_monotone', 'wcnt_opaque_Item_nonneg'],
+        call_ghost_args={'CountMinSketch.add': {'weight': 'mkcounter(lambda y: weight[y] + wcnt(lst, y, delta, k), "Item")', 'total': 'total + wtot(delta, k)'}},
+        ensures=[
+            ('nonneg', 'all(self.M[r][c] >= 0 for r in range(self.depth) for c in range(self.width))'),
+            ('rowsum', 'all(sumI(self.M[r], self.width) == total + wtot(delta, len(lst)) for r in range(self.depth))'),
+            ('lower', 'forall(lambda y: all(self.M[r][cms_h(y, self.hash_seeds[r], self.width)] >= '
+                      'weight[y] + wcnt(lst, y, delta, len(lst)) for r in range(self.depth)), "Item")'),
+        ],
+        loops={1: dict(index='k', inv=[
+            ('shape', 'rows(self.M) == self.depth and cols(self.M) == self.width'),
+            ('nonneg', 'all(self.M[r][c] >= 0 for r in range(self.depth) for c in range(self.width))'),
+            ('rowsum', 'all(sumI(self.M[r], self.width) == total + wtot(delta, k) for r in range(self.depth))'),
+            ('lower', 'forall(lambda y: all(self.M[r][cms_h(y, self.hash_seeds[r], self.width)] >= '
+                      'weight[y] + wcnt(lst, y, delta, k) for r in range(self.depth)), "Item")'),
+        ])},
+    ),
     # ---- class invariant of the sketch as lemma functions over the two contracts above (ghost: weight, total)
     'lemma_cms_add_preserves': dict(
         module='/verif/contracts/lemma_src/c15_lemmas.py', qualname='cms_add_preserves',
